@@ -27,18 +27,62 @@ NONTRIVIAL_RULE = "a sender was parked (write paused) at some point, a sender wa
 STUBS = ["DetLoop + FakeAsyncioTransport (asyncio.Transport write-side contract: pause_writing/resume_writing called synchronously when the buffer crosses the marks; connection_lost once, via call_soon)"]
 ASSUMPTIONS = ["the transport honours set_write_buffer_limits and the pause/resume discipline of asyncio's selector transport"]
 BOUNDS = {"quick": "2-3 senders, messages of 2 bytes, K <= 4 events + final phase", "thorough": "3 senders, K <= 6"}
-OUTSIDE = "the real _SelectorSocketTransport buffer, datagram endpoint/listener protocols (same WriteFlowControl class), trio"
+OUTSIDE = "the real _SelectorSocketTransport buffer, trio; for the datagram protocols only the park/resume/fail/cancel clauses are asserted (they keep asyncio's default buffer limits, so 'handed to the OS on return' is not promised for them)"
 
 
-def flow(senders: int, K: int, final: str, msglen: int = 2, prefix: list = ()):
+class _FakeDgramTransport(FakeAsyncioTransport):
+    """same buffer/pause contract, datagram flavour (sendto)"""
+
+    def sendto(self, data, addr=None):
+        self.write(data)
+
+
+def flow(senders: int, K: int, final: str, msglen: int = 2, prefix: list = (), target: str = "stream"):
+    """target: stream | dgram-endpoint | dgram-listener (the two asyncio datagram protocols share WriteFlowControl; they keep
+    asyncio's default write-buffer limits, so the harness lowers the fake transport's high-water mark to 1 byte to park senders)"""
+
     def scenario(S):
         with loop_context() as loop:
             be = backend()
-            p = StreamReaderBufferedProtocol(loop=loop)
-            tr = FakeAsyncioTransport(loop, p)
-            p.connection_made(tr)
-            adapter = AsyncioTransportStreamSocketAdapter(be, tr, p)
-            high_after_init = tr.high
+            if target == "stream":
+                p = StreamReaderBufferedProtocol(loop=loop)
+                tr = FakeAsyncioTransport(loop, p)
+                p.connection_made(tr)
+                adapter = AsyncioTransportStreamSocketAdapter(be, tr, p)
+                high_after_init = tr.high
+            else:
+                import asyncio as _aio
+
+                from easynetwork.lowlevel.api_async.backend._asyncio.datagram.endpoint import DatagramEndpoint, DatagramEndpointProtocol
+                from easynetwork.lowlevel.api_async.backend._asyncio.datagram.listener import DatagramListenerProtocol
+
+                if target == "dgram-endpoint":
+                    rq, eq = _aio.Queue(), _aio.Queue()
+                    p = DatagramEndpointProtocol(loop=loop, recv_queue=rq, exception_queue=eq)
+                    tr = _FakeDgramTransport(loop, p)
+                    p.connection_made(tr)
+                    ep = DatagramEndpoint(tr, p, recv_queue=rq, exception_queue=eq)
+
+                    class _A:
+                        @staticmethod
+                        async def send_all(data):
+                            await ep.sendto(data, None)
+
+                else:
+                    p = DatagramListenerProtocol(loop=loop)
+                    tr = _FakeDgramTransport(loop, p)
+                    p.connection_made(tr)
+
+                    class _A:
+                        @staticmethod
+                        async def send_all(data):
+                            # what DatagramListenerSocketAdapter.send_to does
+                            tr.sendto(data, ("peer", 1))
+                            await p.writer_drain()
+
+                adapter = _A
+                tr.set_write_buffer_limits(0)  # harness: scale the default 64 KiB mark down so that a few bytes park the sender
+                high_after_init = 0
             st = {"written": 0}
             tr.accept_now = lambda n: S.int(0, n, "now")
             info = []  # per sender: dict(task, end offset, state)
@@ -142,7 +186,7 @@ def flow(senders: int, K: int, final: str, msglen: int = 2, prefix: list = ()):
                     if rec["end"] is None:
                         ok = False
                         problems.append(f"sender {j} returned normally although it wrote on a dead connection (bytes dropped)")
-                    elif rec["handed_at_return"] < rec["end"]:
+                    elif rec["handed_at_return"] < rec["end"] and target == "stream":
                         ok = False
                         problems.append(f"sender {j} returned before its bytes were handed to the kernel" + (" (dead connection: bytes dropped)" if rec.get("lost_at_return") else ""))
                 elif state == "oserror":
@@ -153,7 +197,7 @@ def flow(senders: int, K: int, final: str, msglen: int = 2, prefix: list = ()):
                     ok = False
                     problems.append(f"sender {j}: {state}")
             # private bookkeeping, looked at only if it still exists under that name (a refactor must not break the check)
-            flow_obj = getattr(p, "_StreamReaderBufferedProtocol__write_flow", None)
+            flow_obj = getattr(p, "_StreamReaderBufferedProtocol__write_flow", None) or getattr(p, "_DatagramEndpointProtocol__write_flow", None) or getattr(p, "_DatagramListenerProtocol__write_flow", None)
             waiters = len(getattr(flow_obj, "_WriteFlowControl__drain_waiters", ()))
             if waiters:
                 ok = False
@@ -189,4 +233,10 @@ def shards(tier: str):
                 if final == "resume" and 4 in pre:
                     continue  # 'lose' events only exist in the lose finals
                 add(f"flow/{final}/s{senders}/K{K}/pre{''.join(map(str, pre))}", dict(senders=senders, K=K, final=final, prefix=list(pre)), cost=5 ** (K - len(pre)))
+    for target in ("dgram-endpoint", "dgram-listener"):
+        for final in ("resume", "lose-exc"):
+            for pre in range(5):
+                if final == "resume" and pre == 4:
+                    continue
+                add(f"flow-{target}/{final}/s2/K{K}/pre{pre}", dict(senders=2, K=K, final=final, prefix=[pre], target=target), cost=5 ** (K - 1))
     return out
